@@ -14,6 +14,7 @@ import JjModel.Props.C02
   * `arity_odd`, `fuel_enough`, `loop_terminates_at_fixpoint` — the loop is total and its fuel suffices;
   * `conflict_otherwise` — complete case analysis of the result: a trivial rule, the counting rule
     on the flattened+simplified merge, or a `Reduces`-normal form of it;
+  * `flatten_count` — the flattened merge has signed counts `left − base + right`;
   * `dropped_terms_justified` — in the last case the signed multiset of the result equals that of
     the simplified merge minus the dropped `(remove, add)` pairs, every dropped remove is absent or
     an ancestor of its add and every dropped add is an ancestor-or-equal of an add that survives:
@@ -205,6 +206,12 @@ theorem arity_odd (l b r : Target) (hl : l.length % 2 = 1) (hb : b.length % 2 = 
   · rw [e]; exact hl
   · rw [e]; rfl
   · exact reduces_odd anc _ _ hred (combined_odd l b r hl hb hr)
+
+/-- signed counts of the flattened three-way merge: `left − base + right` (with C01's
+`count (simplify m) = count m` this is also the count of `combined l b r`) -/
+theorem flatten_count (l b r : Target) (hl : l.length % 2 = 1) (hb : b.length % 2 = 1) (v : Option Nat) :
+    count (flatten [l, b, r]) v = count l v - count b v + count r v :=
+  count_flatten_three l b r hl hb v
 
 /-! ### never picks a side -/
 
